@@ -13,7 +13,7 @@ VARIABLES hist, pq0
 GenInit == Init /\ hist = <<>> /\ pq0 = pq
 Log(r) == hist' = Append(hist, r) /\ pq0' = pq0
 GenNext ==
-  \/ StartPass /\ Log([a |-> "start", vL |-> vL', vM |-> vM'])
+  \/ StartPass /\ Log([a |-> "start", org |-> porg', vL |-> vL', vM |-> vM'])
   \/ \E s \in Ids : \/ RemoveDir(s) /\ Log([a |-> "files", s |-> s])
                     \/ MemDel(s) /\ Log([a |-> "mem", s |-> s])
                     \/ MMemDel(s) /\ Log([a |-> "m_mem", s |-> s])
@@ -22,6 +22,7 @@ GenNext ==
   \/ SegmetaRewrite /\ Log([a |-> "segmeta"])
   \/ MMetaRewrite /\ Log([a |-> "m_meta"])
   \/ Crash /\ Log([a |-> "crash"])
+  \/ Repeat /\ Log([a |-> "repeat"])
 GenSpec == GenInit /\ [][GenNext]_<<vars, hist, pq0>>
 
 SetOk(P(_)) == \A s \in Ids : P(s)
@@ -29,7 +30,7 @@ Emit ==
   IF Completed
   THEN Serialize(ToJson([segs |-> segs, kind |-> kind, limit |-> limit, openw |-> openw, pq0 |-> pq0,
                          steps |-> hist, crashes |-> crashes,
-                         final |-> [files |-> files, mem |-> mem, sorted |-> sorted, smeta |-> smeta, mmeta |-> mmeta, pq |-> pq],
+                         final |-> [ownerF |-> ownerF, started |-> started, files |-> files, mem |-> mem, sorted |-> sorted, smeta |-> smeta, mmeta |-> mmeta, pq |-> pq],
                          ref |-> ref,
                          ok |-> [consistent |-> Consistent, time |-> TimeExact, oldest |-> OldestFirst,
                                  idem |-> Idempotent]]) \o "\n",
